@@ -114,6 +114,10 @@ def main(argv=None):
     kn = K.load()
     # one fresh process per obligation, forked from a server that has the heavy modules imported but no solver state:
     # every obligation sees the same z3 state, so results and timings do not depend on scheduling
+    try:
+        os.setpgrp()
+    except OSError:
+        pass
     ctx = mp.get_context('forkserver')
     ctx.set_forkserver_preload(['numpy', 'scipy.signal', 'scipy.integrate', 'scipy.linalg', 'scipy.interpolate',
                                 'scipy.fftpack', 'z3', 'vf.harness', 'vf.engine.install', 'vf.engine.models',
@@ -133,8 +137,16 @@ def main(argv=None):
         import signal
 
         def _bye(signum, frame):
-            pool.terminate()
-            os._exit(143)
+            # pool.terminate() can deadlock inside a signal handler: kill the whole process group instead (this process
+            # made itself a group leader at start-up; forkserver and workers are members)
+            try:
+                signal.signal(signal.SIGTERM, signal.SIG_IGN)
+                os.killpg(os.getpgrp(), signal.SIGTERM)
+                time.sleep(0.3)
+                signal.signal(signal.SIGKILL if False else signal.SIGTERM, signal.SIG_DFL)
+                os.killpg(os.getpgrp(), signal.SIGKILL)
+            finally:
+                os._exit(143)
         signal.signal(signal.SIGTERM, _bye)
         signal.signal(signal.SIGINT, _bye)
         st_async = None
